@@ -1,5 +1,5 @@
-From Coq Require Import List Arith ZArith QArith Qabs Bool String.
-From BZ Require Import Base.PyVal Model.Algebraic Gen.PyFnAlgebraic Corr.Common.
+From Coq Require Import List Arith ZArith QArith Qcanon Qabs Bool String.
+From BZ Require Import Base.Ops Base.QcInst Base.PyVal Model.Algebraic Model.Sigma Gen.PyFnAlgebraic Corr.Common.
 Import ListNotations.
 (* (model value, observed value, tolerance) with relative scaling done by the harness *)
 Definition chk_val (c : val * val * Q) : bool := let '(m, o, tol) := c in val_close tol m o.
@@ -8,3 +8,20 @@ Definition chk_norm (c : list Q * Q * Q) : bool :=
   let '(cs, n, rel) := c in
   let m := polynomial_norm2 cs in
   Qle_bool (Qabs (n * n - m)) (rel * m)%Q && Qle_bool 0 n.
+
+(* _get_sigma_coeffs / bernstein_companion: (coefficients, observed sigma (or None) / companion rows, observed degree, observed
+   effective degree, relative tolerance, absolute tolerance) *)
+Definition qc_is0 (x : Qc) : bool := Qc_eqb x (Q2Qc 0).
+Definition chk_sigma (c : list Q * option (list Q) * nat * nat * Q * Q) : bool :=
+  let '(cs, osig, od, oe, rel, abs) := c in
+  let '(msig, md, me) := get_sigma_coeffs QcOps qc_is0 (qcs cs) in
+  Nat.eqb md od && Nat.eqb me oe &&
+  match msig, osig with
+  | Some m, Some o => close_rel m o rel abs
+  | None, None => true
+  | _, _ => false
+  end.
+Definition chk_companion (c : list Q * list (list Q) * nat * nat * Q * Q) : bool :=
+  let '(cs, omat, od, oe, rel, abs) := c in
+  let '(mmat, md, me) := bernstein_companion QcOps qc_is0 (qcs cs) in
+  Nat.eqb md od && Nat.eqb me oe && close_rel_mat mmat omat rel abs.
